@@ -130,6 +130,7 @@ def check(run):
             if q < 0.45: text = crashgen.mutate_xml(rng, text)
             elif q < 0.75: text = crashgen.mutate_bytes(rng, text)
             elif q < 0.8: text = crashgen.wrap_xml(crashgen.long_token(rng, rng.choice(crashgen.DECL)), guard=crashgen.long_token(rng, rng.choice(crashgen.EXPR)))
+            elif q < 0.92: text = crashgen.wrap_xml(crashgen.init_lists(rng), guard='true', assign='', sync='', inv='true')     # error-free up to the type checker: initialiser lists of every length
             ssrc[cid] = ('parse_XML_buffer', text)
             j.case(cid, fork=True, old=old).model('xml', text).dump('errors').dump('inv').end()
         elif r < 0.32:
@@ -181,7 +182,7 @@ def check(run):
                    rule='(A) Coq: check_all on the LR(0) item automaton, rule actions and effect table regenerated from parser.y (bison --xml), for the expression, type and frame stacks. '
                         '(B) every builder callback of generated and token-mutated inputs (whole XML, whole XTA in both syntaxes, every xta_part_t) is traced with the three stack heights before and after and compared with the effect table. '
                         '(C) ASan+UBSan build: generated, token-, byte- and element-mutated inputs through parse_XML_buffer, parse_XTA, parse_XTA(part) with DocumentBuilder and PrettyPrinter, parseProperty with PrettyPrinter and TigaPropertyBuilder, both syntax switches; '
-                        'very long identifiers, numbers and string literals (3999 .. 70000 characters) are spliced in; any signal, sanitizer report, abort, timeout or non-std exception is a failing input')
+                        'very long identifiers, numbers and string literals (3999 .. 70000 characters) are spliced in; declarations with struct / array initialiser lists of every length (too few, exact, too many, nested, named) reach the type checker; any signal, sanitizer report, abort, timeout or non-std exception is a failing input')
     run.cov['trusted_base'] += ['LRStack.v machine as a model of the bison skeleton (shift / reduce by any listed rule / recovery to the first state shifting error from a state without default reduction)',
                                 'tools/gen_lr.py + tools/gen_grammar.py (translator: bison --xml, parser.y action reader, effect composition)', 'the per-callback effect table in gen_lr.py (checked by the traces of B)',
                                 'harness/trace_gen.h (generated wrappers), hook TypeFragments::size()', 'ASan / UBSan runtime']
